@@ -105,18 +105,21 @@ def spinn_case(rng, cid):
     B = rng.randint(1, 3)
     coords = [[dy(rng) for _ in range(B)] for _ in range(d)]          # per dimension: the B coordinates
     arr = jnp.array(coords).T                                          # (B, d)
-    P = Params(nn_params=u.init_params(), eq_params={})
+    # the network is evaluated with the parameters it is GIVEN (here: the initial ones scaled), wrapped or bare
+    nnp = jax.tree_util.tree_map(lambda w: w * 1.5, u.init_params())
+    bare = rng.random() < 0.5
+    P = nnp if bare else Params(nn_params=nnp, eq_params={})
     out = u(arr, P) if eq_type == "statio_PDE" else u(arr[:, 0:1], arr[:, 1:], P)
     out = np.asarray(out)
     fails = []
     if out.shape != tuple([B] * d) + (m,):
         fails.append(f"separable network output has shape {out.shape}, expected {tuple([B] * d) + (m,)}")
-    nets = [export_layers(u.init_params().separated_mlp[k], u.static.separated_mlp[k]) for k in range(d)]
+    nets = [export_layers(nnp.separated_mlp[k], u.static.separated_mlp[k]) for k in range(d)]
     idxs = [[rng.randrange(B) for _ in range(d)] for _ in range(4)]
     obs = [out[tuple(ix)].tolist() for ix in idxs]
     term = (f"Spinn {cnat(cid)} {cnat(r)} {cnat(m)} {clist(nets, lambda n: clist(n, clay))} {clist(coords, lambda c: clist(c, cq))} "
             f"{clist(idxs, lambda ix: clist(ix, cnat))} {clist(obs, lambda o: clist(o, cq))}")
-    return term, dict(what="spinn", eq_type=eq_type, d=d, r=r, m=m, B=B), fails
+    return term, dict(what="spinn", eq_type=eq_type, d=d, r=r, m=m, B=B, bare=bare), fails
 
 
 def hyper_case(rng, cid):
